@@ -140,7 +140,9 @@ def evaluate(world, run):
             elif code not in (0, 1):
                 viol("C09", "clean-exit", f"exit-status-{code}", ex, f"pavexc exited with status {code}")
             if "panicked" in ex["stderr"]:
-                viol("C09", "clean-exit", "panic-on-stderr", ex,
+                # one class per panic SITE: a shared signature would hide a second, unrelated panic behind
+                # the first one that is reported (F-C09k sat behind F-C09e-h for one run)
+                viol("C09", "clean-exit", "panic-on-stderr" + _panic_site(ex["stderr"]), ex,
                      "stderr contains a panic report: " + _first_line_with(ex["stderr"], "panicked"))
             # 3. failure atomicity
             persist_failed = ("Failed to persist the generated code to disk" in ex["stderr"]
@@ -344,6 +346,15 @@ def _first_line_with(text, needle):
         if needle in l:
             return l.strip()[:300]
     return ""
+
+
+def _panic_site(stderr):
+    """' @ <file>.rs:<line>' of the first panic report on stderr ('in compiler/…/router.rs, line 240'), or ''."""
+    import re
+    m = re.search(r"^in (\S+?\.rs), line (\d+)", stderr, re.M)
+    if not m:
+        m = re.search(r"panicked at (\S+?\.rs):(\d+)", stderr)
+    return f" @ {os.path.basename(m.group(1))}:{m.group(2)}" if m else ""
 
 
 def _classify_wrong_bytes(world, run, ex, rel, got, states, relaxed):
